@@ -50,6 +50,8 @@ static Plan keygen_generate(uint64_t seed, const Tier &tier)
 	}
 	// finish: everybody gets everything still missing, in a seeded order
 	p.ops.push_back(Op("complete", (int64_t)g.below(1 << 20)));
+	// rarely: one party's record is published once more and reaches everybody, its owner included, in a seeded order
+	if (g.chance(1, 4)) p.ops.push_back(Op("dupall", (int64_t)g.below(k), (int64_t)g.below(1 << 20)));
 	return p;
 }
 
@@ -124,7 +126,7 @@ static RunResult keygen_execute(const Plan &plan)
 		accepted[d].insert(s);
 		check_h(d, "accepting a contribution");
 	};
-	bool any_fault = false;
+	bool any_fault = false, dup_done = false;
 	for (size_t oi = 0; oi < plan.ops.size() && res.ok(); oi++)
 	{
 		const Op &op = plan.ops[oi];
@@ -199,6 +201,30 @@ static RunResult keygen_execute(const Plan &plan)
 			if (ok) violate("malformed_contribution_accepted", "contribution of party " + std::to_string(s) + " with field " + std::to_string(field) + " altered (" + what + ") was accepted by party " + std::to_string(d));
 			else if (mpz_cmp(before, P[d]->h)) violate("key_changed_by_refused_contribution", "a refused contribution (" + what + ") changed the common key");
 		}
+		else if (op.kind == "dupall")
+		{
+			// The statement does not say whether a repeated contribution counts twice; whatever the answer, it has to be
+			// the same at every party.  Only parties that hold everything (after "complete") take part; the repeated
+			// record is delivered to each of them exactly once more, its owner included.
+			bool full = true;
+			for (size_t a = 0; a < k; a++) if (accepted[a].size() + 1 != k) full = false;
+			if (!full) continue;
+			std::vector<size_t> order; for (size_t a = 0; a < k; a++) order.push_back(a);
+			Rng g(derive(plan.seed ^ (uint64_t)op.arg(1), 10));
+			for (size_t a = 0; a + 1 < k; a++) std::swap(order[a], order[a + (size_t)g.below(k - a)]);
+			std::vector<int> rets;
+			for (size_t a = 0; a < k; a++)
+			{
+				size_t d2 = order[a]; S.single_party = (int)d2;
+				std::istringstream in(contrib[s]);
+				bool ok = false; try { ok = P[d2]->KeyGenerationProtocol_UpdateKey(in); } catch (std::exception &) {}
+				rets.push_back(ok ? 1 : 0); S.hist.add(H_OP, 3, s * 16 + d2, ok);
+			}
+			res.cnt["fault.contribution_repeated_to_all"]++; any_fault = true; dup_done = true;
+			for (size_t a = 1; a < k && res.ok(); a++)
+				if (mpz_cmp(P[0]->h, P[a]->h))
+					violate("common_key_differs_after_repeat", "after the record of party " + std::to_string(s) + " reached every party once more, parties 0 and " + std::to_string(a) + " hold different common keys");
+		}
 		else if (op.kind == "complete")
 		{
 			std::vector<std::pair<size_t, size_t> > todo;
@@ -217,7 +243,7 @@ static RunResult keygen_execute(const Plan &plan)
 		for (size_t b = a + 1; b < k; b++)
 		{
 			std::set<size_t> sa = accepted[a], sb = accepted[b]; sa.insert(a); sb.insert(b);
-			if (sa == sb && mpz_cmp(P[a]->h, P[b]->h))
+			if (!dup_done && sa == sb && mpz_cmp(P[a]->h, P[b]->h))
 			{ violate("common_key_differs", "parties " + std::to_string(a) + " and " + std::to_string(b) + " accepted the same contributions but hold different keys"); break; }
 		}
 	if (res.ok())
@@ -232,7 +258,7 @@ int main(int argc, char **argv)
 	sc.name = "keygen";
 	sc.real_components = "src/BarnettSmartVTMF_dlog.cc (GenerateKey, PublishKey, UpdateKey, RemoveKey, VerifyNIZK, Finalize), BarnettSmartVTMF_dlog_GroupQR.cc";
 	sc.stub_components = "the broadcast of the three-line contributions (in-memory messages whose processing order per recipient the scheduler chooses); entropy";
-	sc.rule = "enumerated: all (k-1)! processing orders of the foreign contributions at one recipient for k <= 5 (quick) / 6 (thorough) with a removal and re-delivery; seeded: k=2..8, group from a pool of four, random interleavings of deliver / remove (of accepted and of unknown contributions) / malformed contribution (field x {+1, 0, missing, non-member, +p, +q, foreign proof}) followed by completion in a seeded order; reference model = product of own and accepted keys computed by the harness; distinct = history fingerprint";
+	sc.rule = "enumerated: all (k-1)! processing orders of the foreign contributions at one recipient for k <= 5 (quick) / 6 (thorough) with a removal and re-delivery; seeded: k=2..8, group from a pool of four, random interleavings of deliver / remove (of accepted and of unknown contributions) / malformed contribution (field x {+1, 0, missing, non-member, +p, +q, foreign proof}) followed by completion in a seeded order, in a quarter of the runs followed by one party's record reaching every party (its owner included) once more, after which all parties must still agree; reference model = product of own and accepted keys computed by the harness; distinct = history fingerprint";
 	sc.generate = keygen_generate; sc.execute = keygen_execute; sc.enumerate = keygen_enumerate; sc.worker_init = keygen_init;
 	return runner_main(argc, argv, sc);
 }
